@@ -204,7 +204,7 @@ def block_mutations(spec):
                                                        s['txs'][-1]['vout'].append({'value': 0, 'script': b'\xac' * (t - 18000) + b'\x05\xac\xac' }) or s)
     out['merkle_wrong'] = lambda s: s.update(merkle='wrong') or s
     out['merkle_zero'] = lambda s: s.update(merkle='zero') or s
-    for mode in ('none', 'wrong', 'in_noncoinbase', 'two_last_right', 'two_last_wrong', 'nonce31', 'nonce33', 'nonce_missing', 'nonce_two_items', 'nonce_empty_stack', 'len39', 'len37', 'always', 'first_output'):
+    for mode in ('none', 'wrong', 'in_noncoinbase', 'two_last_right', 'two_last_wrong', 'nonce31', 'nonce33', 'nonce_missing', 'nonce_two_items', 'nonce_empty_stack', 'len39', 'len37', 'always', 'first_output', 'cbwit_only_no_commit', 'cbwit_only_wrong_commit', 'cbwit_only_bad_nonce'):
         out['commit:%s' % mode] = (lambda s, mode=mode: s.update(commit=mode) or s)
     out['time+7200'] = lambda s: s.update(time=CUR_TIME + 7200) or s
     out['time+7201'] = lambda s: s.update(time=CUR_TIME + 7201) or s
@@ -263,6 +263,18 @@ def build_block(spec):
         elif mode == 'nonce_two_items':
             cb['wit'] = [[nonce, b'']]
             cb['vout'].append({'value': 0, 'script': right})
+    if txs and R.is_coinbase(txs[0]) and mode.startswith('cbwit_only') and not anyw:
+        # the coinbase's own witness is witness data too: the only witness in the block is the coinbase's
+        cb = txs[0]
+        wroot = W.merkle_root([R.NULL_HASH] + [W.wtxid(t) for t in txs[1:]])
+        if mode == 'cbwit_only_no_commit':
+            cb['wit'] = [[b'\x77' * 32]]
+        elif mode == 'cbwit_only_wrong_commit':
+            cb['wit'] = [[b'\x77' * 32]]
+            cb['vout'].append({'value': 0, 'script': MAGIC + W.sha256d(wroot + b'\x78' * 32)})
+        else:
+            cb['wit'] = [[b'\x77' * 31]]
+            cb['vout'].append({'value': 0, 'script': MAGIC + W.sha256d(wroot + b'\x77' * 31)})
     b = {'version': 4, 'prev': b'\x11' * 32, 'time': spec['time'], 'bits': spec['bits'], 'nonce': 0, 'vtx': txs}
     root = W.merkle_root([W.txid(t) for t in txs]) if txs else b'\x00' * 32
     if spec['merkle'] == 'wrong':
@@ -403,6 +415,66 @@ class BlockLimits(Family):
         return judge_block(spec, label)[0], True
 
 
+class CheckHistories(Family):
+    """Every history of <= 4 (5) events over {select one of the 4 chains, CheckBlock(valid regtest block),
+    CheckBlock(block whose coinbase pays MAX_MONEY+1), CheckBlockHeader(header with signet-level difficulty)}: every verdict
+    equals the reference verdict under the chain selected at that moment, whatever happened before."""
+    name = 'check_call_histories'
+    engine = 'E2'
+    nontrivial_rule = 'history contains a chain selection followed by a check'
+
+    EVENTS = [('sel', c) for c in C.CHAINS] + [('block', 'b1'), ('block', 'b2w'), ('header', 0x1e0377ae), ('header', 0x1d00ffff)]
+
+    def shards(self, tier):
+        return list(range(len(self.EVENTS)))
+
+    def cases(self, shard, tier):
+        from mc.core import all_sequences
+        return all_sequences(len(self.EVENTS), 4 if tier == 'quick' else 5, first=shard)
+
+    def setup(self):
+        self.blocks = {k: build_block(base_spec(k)) for k in ('b1', 'b2w')}
+
+    def check(self, seq):
+        import bitcoin
+        import bitcoin.core
+        from bitcoin.core import CBlock, CBlockHeader, CheckBlock, CheckBlockHeader, ValidationError
+        bitcoin.params = bitcoin.MainParams()
+        bitcoin.core.coreparams = bitcoin.core.CoreMainParams()
+        if not hasattr(self, 'blocks'):
+            self.setup()
+        cur = 'mainnet'
+        nt = False
+        for n, i in enumerate(seq):
+            kind, x = self.EVENTS[i]
+            if kind == 'sel':
+                bitcoin.SelectParams(x)
+                cur = x
+                continue
+            if kind == 'block':
+                b = self.blocks[x]
+                want = R.check_block(b, RC.POW_LIMIT[cur], CUR_TIME, True)
+                obj = CBlock.deserialize(W.encode_block(b))
+                fn = lambda: CheckBlock(obj, cur_time=CUR_TIME)      # noqa
+            else:
+                h = {'version': 4, 'prev': b'\x11' * 32, 'merkle': b'\x22' * 32, 'time': CUR_TIME, 'bits': x, 'nonce': 0}
+                # header hash 'zero-ish' is impossible to grind for real targets: only the range part of the rule is
+                # probed (bits above the chain limit must be rejected; bits within it are rejected here for the hash)
+                want = None if RC.pow_ok(W.sha256d(W.encode_header(h)), x, RC.POW_LIMIT[cur]) else 'proof of work'
+                obj = CBlockHeader.deserialize(W.encode_header(h))
+                fn = lambda: CheckBlockHeader(obj, cur_time=CUR_TIME)    # noqa
+            try:
+                fn()
+                got = None
+            except ValidationError as e:
+                got = type(e).__name__
+            nt = nt or n > 0
+            if (got is None) != (want is None):
+                raise Viol('%s(%s) on %s after history %r: library %s, rules %s' % ('CheckBlock' if kind == 'block' else 'CheckBlockHeader', x if kind == 'block' else hex(x), cur,
+                           [self.EVENTS[j] for j in seq[:n]], 'accept' if got is None else 'reject', 'accept' if want is None else 'reject: ' + want), want, got)
+        return 'ok', nt
+
+
 def selftest(run):
     # the reference rules on hand-made cases
     ok = base_tx(2, 2)
@@ -445,4 +517,4 @@ def selftest(run):
 
 
 def families(tier):
-    return [TxRules(), BlockRules(), BlockLimits()]
+    return [TxRules(), BlockRules(), BlockLimits(), CheckHistories()]
